@@ -1345,6 +1345,10 @@ fn main() {
 				let name = f.sig.ident.to_string();
 				let fc = it.fns.get(&name).cloned().unwrap_or_default();
 				let stub = if it.stub { Some(it.stub_home.clone().unwrap_or_default()) } else { None };
+				if matches!(f.vis, syn::Visibility::Inherited) {
+					let a = f.sig.constness.map(|c| br(c.span()).0).or(f.sig.asyncness.map(|c| br(c.span()).0)).unwrap_or(br(f.sig.fn_token.span()).0);
+					edits.push(Edit { start: a, end: a, parts: vec![Part::Text("pub ".into())], rule: "A5".into(), seq: usize::MAX / 4 });
+				}
 				fn_edits(&mut ctx, src, &name, &f.attrs, &f.sig, &f.block, &fc, &it.replace, whole, &mut edits, false, stub);
 				ranges.push(whole);
 			}
@@ -1383,6 +1387,10 @@ fn main() {
 							let w = br(f.span());
 							let fc = it.fns.get(&name).cloned().unwrap_or_default();
 							let stub = if it.stub { Some(it.stub_home.clone().unwrap_or_default()) } else { None };
+							if matches!(f.vis, syn::Visibility::Inherited) && (im.trait_.is_none() || it.as_inherent) {
+								let a = f.sig.constness.map(|c| br(c.span()).0).or(f.sig.asyncness.map(|c| br(c.span()).0)).unwrap_or(br(f.sig.fn_token.span()).0);
+								edits.push(Edit { start: a, end: a, parts: vec![Part::Text("pub ".into())], rule: "A5".into(), seq: usize::MAX / 4 });
+							}
 							fn_edits(&mut ctx, src, &name, &f.attrs, &f.sig, &f.block, &fc, &it.replace, w, &mut edits, im.trait_.is_some() && !it.as_inherent, stub);
 							ranges.push(w);
 						}
@@ -1403,6 +1411,17 @@ fn main() {
 			Found::Struct(s) => {
 				let whole = br(s.span());
 				src_span = whole;
+				// A5: visibility widened to pub (type and fields) so that specs may mention them
+				if matches!(s.vis, syn::Visibility::Inherited) {
+					let (a, _) = br(s.struct_token.span());
+					edits.push(Edit { start: a, end: a, parts: vec![Part::Text("pub ".into())], rule: "A5".into(), seq: 0 });
+				}
+				for f in s.fields.iter() {
+					if matches!(f.vis, syn::Visibility::Inherited) {
+						let a = match &f.ident { Some(i) => br(i.span()).0, None => br(f.ty.span()).0 };
+						edits.push(Edit { start: a, end: a, parts: vec![Part::Text("pub ".into())], rule: "A5".into(), seq: 0 });
+					}
+				}
 				let ds = it.derive.clone().unwrap_or_default();
 				if !ds.is_empty() {
 					pre.push_str(&format!("#[derive({})]\n", ds.join(", ")));
@@ -1433,6 +1452,10 @@ fn main() {
 			Found::Enum(s) => {
 				let whole = br(s.span());
 				src_span = whole;
+				if matches!(s.vis, syn::Visibility::Inherited) {
+					let (a, _) = br(s.enum_token.span());
+					edits.push(Edit { start: a, end: a, parts: vec![Part::Text("pub ".into())], rule: "A5".into(), seq: 0 });
+				}
 				let ds = it.derive.clone().unwrap_or_else(|| {
 					let d = derive_list(&s.attrs);
 					let mut keep: Vec<String> = d
